@@ -456,17 +456,9 @@ class CyclicCodeEncoder(SystematicLinearBlockCodeEncoder):
         errors in all positions. We construct it such that: H = [P^T | I_m] where P is the parity
         submatrix of G.
         """
-        # For a systematic (n,k) code with generator matrix G = [I_k | P],
-        # the check matrix is H = [P^T | I_(n-k)]
-        identity_part = torch.eye(self._redundancy, dtype=torch.float32, device=self.generator_matrix.device)
-
-        if self._info_set_config == "left":
-            # For 'left' information set, G = [I_k | P]
-            parity_part = self.generator_matrix[:, self._dimension :].T
-            # H = [P^T | I_m]
-            self._check_matrix = torch.cat([parity_part, identity_part], dim=1)
-        else:
-            # For 'right' information set, G = [P | I_k]
-            parity_part = self.generator_matrix[:, : self._redundancy].T
-            # H = [I_m | P^T]
-            self._check_matrix = torch.cat([identity_part, parity_part], dim=1)
+        # G has the identity on the information set and P on the parity set (whatever their positions),
+        # so H has P^T on the information set and the identity on the parity set.
+        check_matrix = torch.zeros((self._redundancy, self._length), dtype=torch.float32, device=self.generator_matrix.device)
+        check_matrix[:, self._information_set] = self._parity_submatrix.T.to(dtype=torch.float32, device=check_matrix.device)
+        check_matrix[:, self._parity_set] = torch.eye(self._redundancy, dtype=torch.float32, device=check_matrix.device)
+        self._check_matrix = check_matrix
